@@ -263,6 +263,23 @@ def resync_retry_family():
                 yield {'names': ['A', 'C', 'B'], 'phens': CONFLICT, 'cache': 1000, 'ops': ops}
 
 
+def change_during_resync_family():
+    """the engine thread publishes a local change WHILE the outgoing thread is sending a RESYNC snapshot (taken before the
+    change): the change is not in that snapshot, so it still has to go out afterwards -- at start-up (everybody is in the
+    resync period) and after a long silence."""
+    for names in (['A', 'B'], ['A', 'B', 'C']):
+        for first in (['in A 0'], []):
+            for during in ('in_A_0', 'in_A_0;in_A_1', 'in_A_1'):
+                if not first and during == 'in_A_1':
+                    continue
+                for silence in (0, 61):
+                    ops = list(first)
+                    if silence:
+                        ops += ['sync', f'tick {silence}']
+                    ops += [f'passi A send:B {during}'] + [f'del A {o}' for o in names[1:]] * 2 + ['tick 1', 'sync', 'tick 6', 'sync', 'heal']
+                    yield {'names': names, 'phens': CONFLICT, 'cache': 1000, 'ops': ops}
+
+
 def racing_engine_family():
     """the same run is finished (or advanced) on a peer and, at the same moment, locally: the peer's notification is being
     applied by the distributed thread while the engine thread processes the datum that does the same to the local copy
